@@ -271,6 +271,35 @@ fn semantic_value(rng: &mut Rng, dt: DT, n: usize) -> Option<Vec<u8>> {
     }
 }
 
+/// A value that fits the meaning of the (IANA / Cisco) element number, for records that look like
+/// traffic: protocol 1/6/17 together with plausible ports, flag sets, masks, AS numbers ...
+/// (numbers 1-30 mean the same in V9 and IPFIX). None = no opinion, use the generic generator.
+pub fn realistic_value(rng: &mut Rng, type_num: u16, n: usize) -> Option<Vec<u8>> {
+    if n == 0 || n > 8 {
+        return None;
+    }
+    let x: u64 = match type_num {
+        4 => *rng.pick(&[1u64, 6, 17, 47, 50, 58, 132]),
+        7 | 11 => *rng.pick(&[0u64, 0, 22, 53, 80, 123, 443, 2048, 771, 1024, 8080, 65535]),
+        6 => *rng.pick(&[0u64, 0x02, 0x12, 0x10, 0x18, 0x11, 0x04, 0x1b]),
+        5 => *rng.pick(&[0u64, 0, 0xb8, 0x28]),
+        8 | 12 | 15 | 18 => *rng.pick(&[0u64, 0x7f000001, 0x0a000001, 0xc0a80101, 0xc0000201, 0xe0000001, 0xffffffff]),
+        9 | 13 => *rng.pick(&[0u64, 8, 16, 24, 32]),
+        29 | 30 => *rng.pick(&[0u64, 32, 48, 64, 128]),
+        16 | 17 => *rng.pick(&[0u64, 64512, 65535, 23456]),
+        1 | 23 => 40 + rng.below(150000),
+        2 | 24 => 1 + rng.below(100),
+        10 | 14 => rng.below(64),
+        21 | 22 => rng.below(1_000_000),
+        32 => *rng.pick(&[0u64, 0x0800, 0x0000, 0x0303, 0x0b00]),
+        _ => return None,
+    };
+    if n < 8 && x >> (8 * n) != 0 {
+        return None;
+    }
+    Some(x.to_be_bytes()[8 - n..].to_vec())
+}
+
 pub fn gen_value(rng: &mut Rng, dt: DT, n: usize, cfg: &Cfg) -> Vec<u8> {
     if rng.chance(1, 4) {
         if let Some(v) = semantic_value(rng, dt, n) {
@@ -452,7 +481,20 @@ impl Exporter {
                 let prev = records[records.len() - 1].clone();
                 records.push(prev);
             } else {
-                records.push(t.fields.iter().map(|(ty, l)| gen_value(rng, v9_dt(*ty), *l as usize, cfg)).collect());
+                let realistic = rng.chance(1, 6);
+                records.push(
+                    t.fields
+                        .iter()
+                        .map(|(ty, l)| {
+                            if realistic && v9_dt(*ty) != DT::Unknown {
+                                if let Some(v) = realistic_value(rng, *ty, *l as usize) {
+                                    return v;
+                                }
+                            }
+                            gen_value(rng, v9_dt(*ty), *l as usize, cfg)
+                        })
+                        .collect(),
+                );
             }
         }
         let padding = self.padding(rng, cfg, rs.saturating_sub(1));
@@ -657,7 +699,22 @@ impl Exporter {
         let mut records: Vec<Vec<Cell>> = vec![];
         let mut size = 0usize;
         for _ in 0..n {
-            let r: Vec<Cell> = if !records.is_empty() && rng.chance(1, 10) { records[records.len() - 1].clone() } else { fields.iter().map(|s| self.ipfix_cell(rng, cfg, s)).collect() };
+            let realistic = rng.chance(1, 6);
+            let r: Vec<Cell> = if !records.is_empty() && rng.chance(1, 10) {
+                records[records.len() - 1].clone()
+            } else {
+                fields
+                    .iter()
+                    .map(|s| {
+                        if realistic && s.enterprise.is_none() && s.len != 65535 && ipfix_dt(s.type_num) != DT::Unknown {
+                            if let Some(v) = realistic_value(rng, s.type_num, s.len as usize) {
+                                return Cell::fixed(v);
+                            }
+                        }
+                        self.ipfix_cell(rng, cfg, s)
+                    })
+                    .collect()
+            };
             size += r.iter().map(|c| c.wire().len()).sum::<usize>();
             records.push(r);
             if size > 12000 {
